@@ -103,6 +103,7 @@ type Gen struct {
 	curStore   *storeRec
 	curCode    string
 	preAlloc   string
+	wfSeen     map[string]bool
 	storeRecs  map[*ssa.BasicBlock]map[string][]storeRec // precise single-location stores per block and heap
 	imprecise  map[*ssa.BasicBlock]map[string]bool
 }
